@@ -32,6 +32,26 @@ impl TcpListener {
     pub fn accept(&self) -> Accept<'_> {
         Accept { listener: self }
     }
+    /// The stream of incoming connections (same as calling `accept` in a loop).
+    pub fn incoming(&self) -> Incoming<'_> {
+        Incoming { listener: self }
+    }
+}
+
+pub struct Incoming<'a> {
+    listener: &'a TcpListener,
+}
+impl futures_core::Stream for Incoming<'_> {
+    type Item = io::Result<TcpStream>;
+    fn poll_next(self: Pin<&mut Self>, cx: &mut Context<'_>) -> Poll<Option<Self::Item>> {
+        let port = self.listener.port;
+        let local = self.listener.addr;
+        match sim_core::with(|w| w.net_poll_accept(port, cx.waker())) {
+            Poll::Pending => Poll::Pending,
+            Poll::Ready(Err(e)) => Poll::Ready(Some(Err(e))),
+            Poll::Ready(Ok(conn)) => Poll::Ready(Some(Ok(TcpStream { conn, local }))),
+        }
+    }
 }
 impl Drop for TcpListener {
     fn drop(&mut self) {
@@ -97,6 +117,13 @@ impl TcpStream {
         Ok(())
     }
     pub fn peer_addr(&self) -> io::Result<SocketAddr> {
+        // getpeername(2) on a connection the peer has reset fails with ENOTCONN - also for a
+        // connection that was reset while it waited in the listen backlog and was accepted
+        // afterwards (accept(2) itself still reports the address it recorded)
+        let conn = self.conn;
+        if sim_core::with(|w| w.net.conns[conn].rst) {
+            return Err(io::Error::from_raw_os_error(107));
+        }
         Ok(client_addr(self.conn))
     }
 }
